@@ -148,6 +148,8 @@ def analyse(src: Source) -> List[Report]:
         "and C05 rule sets (rate homogeneity, exact acceptance ratio, balanced lifting).")
     prog = Program(src)
     check_budgets(prog, rep)
+    from ..handler_dims import check_handler_dimensions
+    check_handler_dimensions(prog, src, rep, "R1.4-handler-dimensions", None)
     cfgs = load_all(prog)
     cache: Dict[str, HandlerFacts] = {}
     for cfg in cfgs:
@@ -189,6 +191,8 @@ MUTANTS = [
 MUTANTS[2] = Edit("one budget for all targets", EH + "two_composite_object_summed_bounding_potential_event_handler.py",
                   "            random.expovariate(setting.beta)) for target_unit in self._target_leaf_units)",
                   "            self._budget) for target_unit in self._target_leaf_units)", "R1.1")
+MUTANTS.append(Edit("piecewise constant: budget multiplied by the rate", EH + "abstracts/event_handler_with_bounding_potential.py",
+                    "            return potential_change / constant_derivative\n", "            return potential_change * constant_derivative\n", "R1.4"))
 TWINS = [
     Edit("draw bound to a local first", EH + "abstracts/cell_veto_event_handler.py",
          "        time_displacement = random.expovariate(setting.beta) / (total_rate * speed)\n",
